@@ -1,6 +1,7 @@
 package p_beacon
 
 import (
+	"time"
 	"fmt"
 	"strings"
 	"sync"
@@ -96,6 +97,14 @@ func step(c *beacon.ConsensusLightClient, u updSpec, cs *stats.Case, prov *prove
 	cu, notes := resolve(u, ctx)
 	res.cu = cu
 	view, err := viewOf(cu, ctx)
+	if err == nil && u.Clock >= 1 && u.Clock <= 3 && cu.SigSlot >= 2 && cu.SigSlot < model.LCPastLimit {
+		// "not in the future" at its boundary: the client's current slot is put right next to the signature slot
+		nowSlot := cu.SigSlot - 1 + uint64(u.Clock-1)
+		c.Config.Chain.GenesisTime = uint64(time.Now().Unix()) - nowSlot*12 - 6
+		defer func() { c.Config.Chain.GenesisTime = mainnetGenesisTime }()
+		view.SigInFuture = cu.SigSlot > nowSlot
+		cs.NT(fmt.Sprintf("clock:current-slot=sig%+d", int(u.Clock)-2))
+	}
 	if err != nil {
 		if strings.HasPrefix(err.Error(), "harness:") {
 			cs.Class("discard:slot-range")
@@ -395,6 +404,9 @@ func genVerifyPlan(t *rapid.T) verifyPlan {
 		}
 	default:
 		applyDeviation(t, &p.Upd, true)
+	}
+	if !p.Store.Future && rapid.IntRange(0, 3).Draw(t, "clockGate") == 0 {
+		p.Upd.Clock = rapid.SampledFrom([]int{1, 1, 2, 3}).Draw(t, "clock")
 	}
 	return p
 }
